@@ -1,6 +1,8 @@
 package cmp
 
 import (
+	"errors"
+
 	"github.com/taurusgroup/multi-party-sig/internal/round"
 	"github.com/taurusgroup/multi-party-sig/pkg/ecdsa"
 	"github.com/taurusgroup/multi-party-sig/pkg/math/curve"
@@ -48,6 +50,11 @@ func Keygen(group curve.Curve, selfID party.ID, participants []party.ID, thresho
 // The group's ECDSA public key remains the same, but any previous shares are rendered useless.
 // Returns *cmp.Config if successful.
 func Refresh(config *Config, pl *pool.Pool) protocol.StartFunc {
+	if config == nil {
+		return func([]byte) (round.Session, error) {
+			return nil, errors.New("cmp.Refresh: config is nil")
+		}
+	}
 	info := round.Info{
 		ProtocolID:       "cmp/refresh-threshold",
 		FinalRoundNumber: keygen.Rounds,
